@@ -58,6 +58,9 @@ CLAIMED = {
  "C19": ("Lean proof: open_reads_root_only (exact read list of the scan), key-only loads never touch value bytes, flush writes tile the file; read-log checks on the implementation",
          "The model of NewStore's reads is the Go loop position by position; for files ending in a root record exactly Stat + 2 reads. Key-only traversals in any cache state read only node records and header+key ranges; records never overlap. On the implementation, every open's read list is compared exactly and every read of every key-only call (GetItem/Min/Max/visit without value, Exist, Len, Set, Delete) is checked against the value ranges of all item records ever flushed.",
          "Value ranges are computed by the model from its own (byte-identical) file image."),
+ "C04": ("Lean proof: frame theorems of the history interpreter (snapshot_isolated, readonly_rejects, reads_change_nothing) + recycling_safe; snapshot correspondence",
+         "For every operation line the model leaves untargeted stores untouched, so a snapshot keeps its value through every later history; read-only stores reject Set/Delete/Flush unchanged; Close/FlushRevert through a snapshot leave file bytes alone. The Go-side reason (shared nodes are never recycled while a version is pinned) is C10's theorem; the stream compares all open snapshots (snapshots of snapshots, any close order, removal/replacement, Close of the original) and the original after every step.",
+         "After FlushRevert on the ORIGINAL, earlier snapshots are undefined (documented by the library) and are closed by the generator first."),
 }
 
 PENDING = {
